@@ -48,7 +48,7 @@ func (c03) Components() map[string]string {
 }
 func (c03) Budget(tier string) int {
 	if tier == "thorough" {
-		return 120000
+		return 80000
 	}
 	return 2000
 }
